@@ -245,6 +245,12 @@ rule("C19.n", "a window is half open wherever its end meets a time point: a comp
               "end of a window is `point < end` (inside) or `point >= end` (outside) - also in a shortcut that decides 'the window covers the "
               "whole grid' from the last point. `end >= last point` takes the closed interval: a window that ends exactly on the last point "
               "gets that point too", floor=0, props=["C19", "C14", "C08"])
+rule("C13.n", "two frequencies are the same only if they are the same frequency: they are compared as a whole (the strings, or the offsets) - "
+              "not through a projection that drops the multiple (to_offset(f).name is 'h' for 'h', '2h' and '4h'): an asset with freq '4h' on an "
+              "hourly grid would count as having the grid's frequency and be dispatched hour by hour", floor=0, props=["C13", "C19"])
+rule("C16.q", "the time a window is active is the sum of the step lengths of its restricted grid: restricted.start / .end (and an asset's own start / "
+              "end) are the dates as given, not clipped to the horizon and not snapped to the grid - their difference is not a duration a set-up may "
+              "charge for", floor=0, props=["C16", "C08", "C14"])
 rule("C19.o", "already-gridded prices pass through unchanged: a price table with a numeric (positional) index is mapped onto the grid's time "
               "points row by row, in the caller's order - between taking the copy and `index = self.timepoints` nothing re-orders, "
               "aggregates or drops rows (groupby / sort / drop_duplicates / resample ... sort by label: a table whose labels are not "
@@ -255,7 +261,7 @@ rule("C02.i", "interval data brought to the grid keeps its gaps: a step that lie
               "beyond its end", floor=1, props=["C02", "C19"])
 
 
-@analysis("intervals", ["C19.a", "C19.b", "C19.c", "C19.e", "C19.g", "C15.g", "C20.h", "C11.i", "C19.h", "C20.i", "C15.h", "C19.i", "C19.j", "C19.k", "C14.i", "C19.m", "C02.i", "C19.n", "C19.o"])
+@analysis("intervals", ["C19.a", "C19.b", "C19.c", "C19.e", "C19.g", "C15.g", "C20.h", "C11.i", "C19.h", "C20.i", "C15.h", "C19.i", "C19.j", "C19.k", "C14.i", "C19.m", "C02.i", "C19.n", "C19.o", "C13.n", "C16.q"])
 def run(ctx):
     p = ctx.p
     zc = _zone_cases(ctx)
@@ -729,3 +735,40 @@ def run(ctx):
                    "by label (or drops / merges rows): an already-gridded table whose numeric labels are not increasing - a frame sorted by another "
                    "column, a countdown index - comes back permuted (47 of 48 steps differ), silently" % (
                        au.short(bad[1], 50) if bad else "", p.where(bad[0]) if bad else ""), node=(bad[0] if bad else st))
+
+
+    # ================================================================= C13.n frequencies compared as a whole
+    n_13 = 0
+    PROJ = ("name", "base", "rule_code", "_prefix", "kind")
+    for fnq in sorted(p.all_functions(), key=lambda f: f.qualname):
+        for x in au.walk_local(fnq.node, include_self=False):
+            if not (isinstance(x, ast.Compare) and len(x.ops) == 1 and isinstance(x.ops[0], (ast.Eq, ast.NotEq))):
+                continue
+            sides = [x.left, x.comparators[0]]
+            if not any("freq" in au.U(e) for e in sides):
+                continue
+            proj = [e for e in sides if isinstance(e, ast.Attribute) and e.attr in PROJ and isinstance(e.value, ast.Call) and au.method_name(e.value) in ("to_offset", "Timedelta", "to_timedelta")]
+            if proj:
+                n_13 += 1
+                ctx.ob("C13.n", fnq, au.short(x, 80), False,
+                       "the frequencies are compared through %s, which keeps the unit and drops the multiple: '4h' and 'h' compare equal - an asset with freq "
+                       "'4h' on an hourly grid gets no coarse sub-grid, is dispatched on the fine grid without the equalities (dispatch 2, -1, -1, -1 inside "
+                       "one of its intervals) and its value exceeds the fine problem with the equalities" % au.short(proj[0], 40), node=x)
+    if n_13 == 0:
+        ctx.ob("C13.n", "package", "comparisons of frequencies", True, ok_detail="frequencies are compared as a whole")
+
+    # ================================================================= C16.q a duration is a sum of step lengths
+    n_16 = 0
+    for fnq in sorted(p.all_functions(), key=lambda f: f.qualname):
+        if fnq.cls is None or not p.is_subclass(fnq.cls, "Asset") or fnq.name == "__init__":
+            continue
+        for x in au.walk_local(fnq.node, include_self=False):
+            if isinstance(x, ast.BinOp) and isinstance(x.op, ast.Sub) and isinstance(x.left, ast.Attribute) and isinstance(x.right, ast.Attribute) \
+                    and x.left.attr == "end" and x.right.attr == "start":
+                n_16 += 1
+                ctx.ob("C16.q", fnq, au.short(x, 70), False,
+                       "%s is the distance between the dates as the user gave them: a window that starts before the horizon, ends after it or cuts through "
+                       "a step is longer than the time the asset is active on the grid (restricted.dt.sum()) - fix costs of a scaled asset with life time "
+                       "2020-2022 on a horizon of two days are charged for two years (26316 instead of 72)" % au.short(x, 50), node=x)
+    if n_16 == 0:
+        ctx.ob("C16.q", "package", "durations in set-ups", True, ok_detail="no set-up uses end - start of a window as a duration")
